@@ -1,0 +1,8 @@
+//go:build verif
+
+package velocity
+
+// VerifFindForwardingVersion is findForwardingVersion (verification harness, C20).
+func VerifFindForwardingVersion(requested int, player ConnectedPlayer) int {
+	return findForwardingVersion(requested, player)
+}
